@@ -99,6 +99,17 @@ def rule_bom(ctx, fx, config):
                 a = f.sym_operand(s_["rv"]["ops"][fl.index("input")])
             okp = sym_contains(a, lambda s_: s_[0] == "call" and s_[1] == "core::str::strip_prefix")
             ctx.check(okp, "BOM", "C09:BOM:borrow-source-stripped", "the borrow source is the stripped text", "input_for_borrowing would expose the unstripped text", config, ctx.where(f, b))
+    # who strips: the mark is stripped exactly once on the way to the parser — by the constructor; an entry point that strips it as
+    # well makes a second U+FEFF (content) vanish for that entry point only.  The snippet renderers strip the text they are given.
+    strippers = set()
+    for g in fx.fns.values():
+        for b, t in g.calls():
+            if fx.callee(t) == "core::str::strip_prefix" and len(t["args"]) > 1 and g.sym_operand(t["args"][1]) == ("const", "\ufeff", "char"):
+                strippers.add(g.npath)
+    render_layer = re.compile(r"^de_error::|^de::snippet::|^de_snipped::|^miette::")
+    extra = sorted(x for x in strippers if x != proto.CTOR_STR and not render_layer.search(x))
+    ctx.check(proto.CTOR_STR in strippers and not extra, "BOM", "C09:BOM:stripped-once", "the only function between an entry point and the parser that strips U+FEFF is LiveEvents::from_str",
+              "%s strip(s) a leading U+FEFF in addition to LiveEvents::from_str: input starting with two U+FEFF loses both for these entry points and one for the others (reader input included)" % extra, config, ctx.where(f))
     # who constructs the string parser: only the constructor (and the stand-alone budget pre-scan)
     makers = {g.npath for g in fx.fns.values() for b, t in g.calls() if fx.callee(t) == "saphyr_parser_bw::Parser::new_from_str"}
     ctx.check(makers <= {proto.CTOR_STR, "budget::check_yaml_budget"} and proto.CTOR_STR in makers, "BOM", "C09:BOM:single-choke-point",
@@ -246,6 +257,34 @@ def rule_signature(ctx, fx, config):
     ctx.floor("SIGNATURE.reader-fns", n, 6, config)
 
 
+def rule_byte_info_confined(ctx, fx, config):
+    """WHO-READS: byte offsets exist for string input only (reader events carry the `(0, 0)` "unavailable" pair), so nothing that
+    decides a result or an error may look at them.  The field `byte_info` is read only by the Span accessors, the derived impls of
+    Span, and the `Spanned<T>` exposure; the accessors are called only by the exposure and by the miette source-span conversion.
+    A new reader (a comparison helper, a shortcut in error attachment …) makes reader input and string input disagree."""
+    direct_ok = re.compile(r"^location::Span::(byte_len|byte_offset|raw_byte_info)$|^<location::Span as |^location::_::|^<location::_::|^location::location_from_span$|^<?de::spanned_deser::")
+    acc_ok = re.compile(r"^miette::|^<?de::spanned_deser::|^<de::spanned_deser::")
+    n = 0
+    for f in sorted(fx.fns.values(), key=lambda g: g.npath):
+        reads = False
+        for b, i, s_ in f.stmts():
+            if s_["k"] == "assign" and ("byte_info" in render(f.sym_rvalue(s_["rv"])) or "byte_info" in render(f.sym_place(s_["p"]))):
+                reads = True
+        for b, t in f.calls():
+            if any("byte_info" in render(f.sym_operand(a)) for a in t["args"]):
+                reads = True
+        if reads:
+            n += 1
+            ctx.saw(f)
+            ctx.check(bool(direct_ok.search(f.npath)), "WHO-READS", "C09:WHO-READS:byte-info:%s" % f.npath, "byte_info is touched by a Span accessor / derived impl / the Spanned exposure",
+                      "%s reads the byte offsets of a location directly: they are `(0, 0)` for every reader event, so whatever it decides differs between reader and string input" % f.npath, config, ctx.where(f))
+    ctx.floor("WHO-READS.byte-info-touchers", n, 8, config)
+    for acc in ("location::Span::byte_len", "location::Span::byte_offset", "location::Span::raw_byte_info"):
+        for g, b in fx.callers.get(acc, []):
+            ctx.check(bool(acc_ok.search(g.npath)), "WHO-READS", "C09:WHO-READS:byte-info-accessor:%s" % g.npath, "%s is called by the Spanned exposure / the miette source-span conversion" % last_seg(acc),
+                      "%s asks a location for its byte offset (%s), which reader input does not have: its outcome differs between reader and string input" % (g.npath, last_seg(acc)), config, ctx.where(g, b))
+
+
 def rule_witness(ctx):
     res, out = witness.run(WITNESSES + CONTROLS)
     for w in WITNESSES:
@@ -276,6 +315,7 @@ def run(ctx):
         rule_chunking(ctx, fx, config)
         rule_borrow(ctx, fx, config)
         rule_signature(ctx, fx, config)
+        rule_byte_info_confined(ctx, fx, config)
         from . import C11
         C11.rule_single(ctx, fx, config)
     rule_witness(ctx)
